@@ -75,6 +75,10 @@ pub enum Shape {
     Suspend,
     /// C16: a pipe / (work) / drop-output sequence is spliced into one caller; producers rarely close
     PipeDrop,
+    /// C12: a pipe / consume... sequence is spliced into one caller; producers push bursts and close
+    PipeConsume,
+    /// C11: a pipe_in is spliced into one caller; producers push bursts with yields in between
+    PipeIn,
 }
 
 #[derive(Clone, Debug)]
@@ -229,8 +233,9 @@ pub fn cfg_strategy(p: &Profile) -> BoxedStrategy<Cfg> {
         pct(p.root_holds_pct),
         pct(p.double_wake_pct),
         pct(40),
+        pct(50),
     )
-        .prop_map(move |((pool, objects, gates, streams), q, unlock_points, (sp, spv), (po, pov), root_holds, double_wake, gate_keep_all)| Cfg {
+        .prop_map(move |((pool, objects, gates, streams), q, unlock_points, (sp, spv), (po, pov), root_holds, double_wake, gate_keep_all, stream_always_register)| Cfg {
             pool,
             objects,
             gates,
@@ -242,6 +247,7 @@ pub fn cfg_strategy(p: &Profile) -> BoxedStrategy<Cfg> {
             root_holds,
             double_wake,
             gate_keep_all,
+            stream_always_register,
             keep_going_after_early_destroy: keep_going,
             despawn_without_quiescence: false,
         })
@@ -257,7 +263,7 @@ fn producers_strategy(p: &Profile) -> BoxedStrategy<Vec<Vec<POp>>> {
     if p.streams.1 == 0 {
         return Just(vec![]).boxed();
     }
-    let pop = prop_oneof![2 => Just(POp::Yield), 5 => (1u8..=4).prop_map(|n| POp::Push { n }), 1 => Just(POp::Close)];
+    let pop = prop_oneof![2 => Just(POp::Yield), 4 => (1u8..=4).prop_map(|n| POp::Push { n }), 3 => Just(POp::PushDuring), 1 => Just(POp::Close)];
     vec(vec(pop, 0..=5), p.streams.1 as usize).boxed()
 }
 
@@ -274,6 +280,8 @@ pub fn case_strategy(p: &Profile) -> BoxedStrategy<Case> {
         Shape::Panic => crate::profiles::panic_case(&p),
         Shape::PoolChange => crate::profiles::poolchange_case(&p),
         Shape::Suspend => crate::profiles::suspend_case(&p),
-        Shape::PipeDrop => crate::profiles::pipedrop_case(&p),
+        Shape::PipeDrop => crate::profiles::pipedrop_case(&p, true),
+        Shape::PipeConsume => crate::profiles::pipedrop_case(&p, false),
+        Shape::PipeIn => crate::profiles::pipein_case(&p),
     }
 }
